@@ -53,6 +53,13 @@ def run(ctx):
             ctx.viol("F1", w, w.node, "wrapper does not simply return search.%s(...)" % name, construct="cachedsearch.%s body" % name)
             continue
         check_forwarding(ctx, "F1", w, calls[0], s, {q: q for q in s.posparams})
+    rc = p.resolve_name(p.module(CS), "_cache")
+    if rc is not None and rc[0] == "ext" and not rc[1].startswith("fastcache"):
+        w0 = p.modfunc(CS, "findall")
+        ctx.viol("F1", w0, w0.node, "the cachedsearch functions are decorated with %s: results are memoised on the arguments while the tree "
+                 "stays mutable, so they no longer return what anytree.search returns (stale results, TypeError for unhashable "
+                 "arguments)" % rc[1], construct="cachedsearch: _cache is %s" % rc[1])
+        return
     cache = p.modfunc(CS, "_cache")
     wrapped = [g for g in p.all_funcs if g.module.relpath == CS and g.srcname == "wrapped"]
     if not wrapped:
@@ -132,6 +139,16 @@ def run(ctx):
         # statement form: if items: return items[0] / return None
         texts = sorted(norm(r.value) if r.value is not None else "None" for r in rets)
         ok = texts == sorted(["%s[0]" % items, "None"])
+    if not ok and items and len(rets) == 1 and isinstance(rets[0].value, ast.Name):
+        # try: first = items[0] / except IndexError: first = None ; return first
+        var = rets[0].value.id
+        for t in walk_own(fi.node):
+            if isinstance(t, ast.Try) and len(t.body) == 1 and isinstance(t.body[0], ast.Assign) and norm(t.body[0].targets[0]) == var \
+                    and norm(t.body[0].value) == "%s[0]" % items and len(t.handlers) == 1 and t.handlers[0].type is not None \
+                    and norm(t.handlers[0].type) == "IndexError" and len(t.handlers[0].body) == 1 and isinstance(t.handlers[0].body[0], ast.Assign) \
+                    and norm(t.handlers[0].body[0].targets[0]) == var and isinstance(t.handlers[0].body[0].value, ast.Constant) \
+                    and t.handlers[0].body[0].value.value is None and not t.orelse and not t.finalbody:
+                ok = True
     if ok:
         ctx.inst("F2", fi, rets[0], "first match or None")
     else:
@@ -196,19 +213,44 @@ def run(ctx):
     rule_optint_truthiness(ctx, typer, {S, CS}, rule="F3")
     # ---------------------------------------------------------------- F4
     fb = p.modfunc(S, "_filter_by_name")
+    from .common import resolve_local
+    if len(fb.posparams) != 3:
+        ctx.viol("F4", fb, fb.node, "the attribute filter is no longer `_filter_by_name(node, name, value)` reading getattr(node, name) "
+                 "per node (signature %s): attribute names are interpreted differently (e.g. dotted paths)" % (fb.posparams,),
+                 construct="_filter_by_name signature %s" % (fb.posparams,))
+        ctx.floor("F1", 16)
+        ctx.floor("F2", 18)
+        ctx.floor("F3", 4)
+        return
+    nodep, namep, valuep = fb.posparams[0], fb.posparams[1], fb.posparams[2]
     ga = find_calls(fb, lambda c: norm(c.func) == "getattr")
-    ok = False
+    fcfg = typer.cfg_of(fb)
+    # names that hold the attribute value / the verdict
+    attr_names = {t.id for n_ in walk_own(fb.node) if isinstance(n_, ast.Assign) and any(n_.value is g for g in ga)
+                  for t in n_.targets if isinstance(t, ast.Name)}
+
+    def is_attr_value(e):
+        return any(e is g for g in ga) or (isinstance(e, ast.Name) and e.id in attr_names)
+    cmps = [c for c in walk_own(fb.node) if isinstance(c, ast.Compare) and len(c.ops) == 1 and isinstance(c.ops[0], ast.Eq)
+            and ((is_attr_value(c.left) and norm(c.comparators[0]) == valuep) or (is_attr_value(c.comparators[0]) and norm(c.left) == valuep))]
+    verdict_names = {t.id for n_ in walk_own(fb.node) if isinstance(n_, ast.Assign) and any(n_.value is c for c in cmps)
+                     for t in n_.targets if isinstance(t, ast.Name)}
+    protected = False
+    false_on_missing = False
     for t in walk_own(fb.node):
         if isinstance(t, ast.Try):
-            inside = any(c is g for s_ in t.body for c in ast.walk(s_) for g in ga)
+            inside = any(c_ is g for s_ in t.body for c_ in ast.walk(s_) for g in ga)
             hs = [h for h in t.handlers if h.type is not None and "AttributeError" in norm(h.type)]
-            ret_false = any(isinstance(r, ast.Return) and isinstance(r.value, ast.Constant) and r.value.value is False
-                            for h in hs for r in ast.walk(h))
-            if inside and hs and ret_false:
-                ok = True
+            if inside and hs:
+                protected = True
+                for h in hs:
+                    for st_ in ast.walk(h):
+                        if isinstance(st_, ast.Return) and isinstance(st_.value, ast.Constant) and st_.value.value is False:
+                            false_on_missing = True
+                        if isinstance(st_, ast.Assign) and isinstance(st_.value, ast.Constant) and st_.value.value is False \
+                                and any(isinstance(x, ast.Name) and x.id in verdict_names for x in st_.targets):
+                            false_on_missing = True
     if ga and all(len(g.args) >= 3 for g in ga):
-        # getattr with a default never raises — acceptable only if the default is a private
-        # sentinel (module-level `object()`) that cannot equal any searched value
         sentinel = True
         for g in ga:
             d = g.args[2]
@@ -216,27 +258,27 @@ def run(ctx):
             if not (r is not None and r[0] == "const" and isinstance(r[1], ast.Call) and norm(r[1].func) == "object"):
                 sentinel = False
         if sentinel:
-            ok = True
+            protected = false_on_missing = True
         else:
             ctx.viol("F4", fb, ga[0], "a missing attribute is replaced by the default `%s`, which can equal the searched value: nodes "
                      "lacking the attribute are selected instead of skipped" % norm(ga[0].args[2]))
-            ok = True
-    if ok:
-        ctx.inst("F4", fb, fb.node, "missing attribute → False")
+            protected = false_on_missing = True
+    if protected and false_on_missing:
+        ctx.inst("F4", fb, fb.node.name, "missing attribute → False")
     else:
         ctx.viol("F4", fb, fb.node, "attribute read is not protected against AttributeError → False: nodes lacking the attribute raise",
                  construct="_filter_by_name: AttributeError guard")
-    cmps = [c for c in walk_own(fb.node) if isinstance(c, ast.Compare)]
-    good = [c for c in cmps if len(c.ops) == 1 and isinstance(c.ops[0], ast.Eq) and
-            {norm(c.left), norm(c.comparators[0])} >= {"value"} and any(g is x for g in ga for x in (c.left, c.comparators[0]))]
+    rets = [r for r in walk_own(fb.node) if isinstance(r, ast.Return) and r.value is not None
+            and not (isinstance(r.value, ast.Constant) and r.value.value is False)]
+    good = bool(cmps) and bool(rets) and all(any(r.value is c for c in cmps) or (isinstance(r.value, ast.Name) and r.value.id in verdict_names) for r in rets)
     if good:
-        ctx.inst("F4", fb, good[0], "attribute value compared with == value")
+        ctx.inst("F4", fb, cmps[0], "attribute value compared with == value, verdict returned unchanged")
     else:
         ctx.viol("F4", fb, fb.node, "selection is not `getattr(node, name) == value`", construct="_filter_by_name comparison")
     if ga:
-        b = ga[0]
-        if not (len(b.args) >= 2 and norm(b.args[0]) == "node" and norm(b.args[1]) == "name"):
-            ctx.viol("F4", fb, b, "attribute read is not getattr(node, name)")
+        b_ = ga[0]
+        if not (len(b_.args) >= 2 and norm(b_.args[0]) == nodep and norm(b_.args[1]) == namep):
+            ctx.viol("F4", fb, b_, "attribute read is not getattr(node, name)")
     ctx.floor("F1", 16)
     ctx.floor("F2", 18)
     ctx.floor("F3", 4)
